@@ -12,9 +12,10 @@
    and dim_covariance (otherwise an Eigen assertion, undefined with NDEBUG);
    the aliased calls p += p (PConcatSelf) and g.augmentWithNoise(g.covariance())
    (G/N/PAugmentSelf: the argument refers to storage that is reallocated before
-   it is read) are defined only when nothing is reallocated.  The check runs such
-   "outside" operations on the library too and requires that it fails there
-   exactly when the model says undefined. *)
+   it is read) are defined only when nothing is reallocated.  Such operations are
+   outside the property: the check reports a failure of the library only where the
+   model says DEFINED; where the model says undefined it stops comparing that
+   sequence and only counts whether the library failed or accepted. *)
 Require Import ZArith QArith List Bool Arith.
 Require Import BFL.Ops BFL.ListOps BFL.C11_Model BFL.C11_Proofs.
 Import ListNotations.
@@ -248,6 +249,24 @@ Example C11_concrete_pset_Q :
   ps_consistentb QOps p1 && ps_consistentb QOps p2 && ps_concat_defined QOps QJ r p1
   && (components QOps (base QOps p2) =? 3)
   && qmx_eqb (mdata QOps (state_ QOps p2)) [[15; 16; 0]; [17; 18; 0]; [113; 114; 115]]%Q
+  = true.
+Proof. vm_compute. reflexivity. Qed.
+
+(* ... and guarded runs: a defined history ends in Some consistent object; the histories on which the
+   C++ is undefined are rejected: square augmentation of a 0-component mixture, x += x, += of a set of
+   another size, augmentation of a single Gaussian with its own covariance() *)
+Example C11_runs_Q :
+  let q1 := mk QOps 1 1 (fun _ _ => 9%Q) in
+  let r3 := ps_fill QOps 100%Z (ps_ctor QOps 1 3 0 false) in
+  (match gm_run QOps QJ [GFill QOps 1%Z; GAugment QOps q1; GAugmentSelf QOps; GResize QOps 2 2 1]
+                (gm_ctor QOps 3 1 1 false) with Some g => gm_consistentb QOps g && (components QOps g =? 2) | None => false end)
+  && (match gm_run QOps QJ [GAugment QOps q1] (gm_ctor QOps 0 2 0 false) with None => true | Some _ => false end)
+  && (match gm_run QOps QJ [GFill QOps 1%Z; GAugmentSelf QOps] (gm_ctor QOps 1 2 0 false) with None => true | Some _ => false end)
+  && (match ps_run QOps QJ [PFill QOps 1%Z; PConcatSelf QOps] (ps_ctor QOps 2 2 0 false) with None => true | Some _ => false end)
+  && (match ps_run QOps QJ [PConcat QOps r3] (ps_ctor QOps 2 2 0 false) with None => true | Some _ => false end)
+  && (match ps_run QOps QJ [PConcatSelf QOps; PAugment QOps q1] (ps_ctor QOps 0 2 0 false) with None => true | Some _ => false end)
+  && (match ps_run QOps QJ [PAugment QOps q1; PConcat QOps r3; PPlus QOps r3] (ps_ctor QOps 2 2 0 false)
+      with Some p => ps_consistentb QOps p && (components QOps (base QOps p) =? 4) | None => false end)
   = true.
 Proof. vm_compute. reflexivity. Qed.
 
